@@ -39,7 +39,7 @@ func (e *StrListEncoder) Encode(sl []string) []byte {
 		panic(fmt.Errorf("slice length is too long (%d > 4294967296)", len(sl)))
 	}
 	binary.BigEndian.PutUint32(e.buf, uint32(len(sl)))
-	var offset uint16 = 4
+	offset := 4
 	for _, s := range sl {
 		if len(s) > 65536 {
 			panic(fmt.Errorf("cell value %q is too long (%d > 65536)", s[:40]+"...", len(s)))
@@ -48,7 +48,7 @@ func (e *StrListEncoder) Encode(sl []string) []byte {
 		binary.BigEndian.PutUint16(e.buf[offset:], l)
 		offset += 2
 		copy(e.buf[offset:], s)
-		offset += l
+		offset += int(l)
 	}
 	b := e.buf
 	if !e.reuseRecords {
@@ -97,7 +97,7 @@ func (d *StrListDecoder) strSlice(n uint32) []string {
 func (d *StrListDecoder) Decode(b []byte) []string {
 	count := binary.BigEndian.Uint32(b)
 	sl := d.strSlice(count)
-	var offset uint16 = 4
+	offset := 4
 	var i uint32
 	for i = 0; i < count; i++ {
 		l := binary.BigEndian.Uint16(b[offset:])
@@ -108,7 +108,7 @@ func (d *StrListDecoder) Decode(b []byte) []string {
 		}
 		d.ensureBufSize(int(l))
 		copy(d.buf[:l], b[offset:])
-		offset += l
+		offset += int(l)
 		sl = append(sl, string(d.buf[:l]))
 	}
 	return sl
